@@ -27,7 +27,7 @@ def theorems_of(module: str, only: list[str] | None = None) -> list[str]:
     return [prefix + n for n in names if only is None or n in only]
 
 
-ANALYSER_PARTS = {"C04": "C04a", "C05": "C05a", "C06": "C06a", "C07": "C07a"}
+ANALYSER_PARTS = {"C04": "C04a", "C05": "C05a", "C06": "C06a", "C07": "C07a", "C15": "C15a", "C13": "C13a", "C03": "C03a"}
 """second theorem file of a property: the analyser half (mypy nodes -> API model)"""
 
 
@@ -52,7 +52,7 @@ PROPS = {
     "C05": spec("C05", [stage_gen.run, stage_ana.run, stage_e2e.run], [T], ["StubGen.Tables.builtin_names"]),
     "C06": spec("C06", [stage_gen.run, stage_ana.run, stage_e2e.run]),
     "C07": spec("C07", [stage_gen.run, stage_ana.run, stage_e2e.run]),
-    "C08": spec("C08", [stage_det.run, stage_ana.run, stage_gen.run]),
+    "C08": spec("C08", [stage_det.run, stage_disc.run, stage_ana.run, stage_gen.run]),
     "C09": spec("C09", [stage_names.run, stage_gen.run, stage_e2e.run], [T], ["StubGen.Tables.name_annotation_form"]),
     "C10": spec("C10", [stage_gen.run, stage_e2e.run]),
     "C11": spec("C11", [stage_gen.run, stage_e2e.run]),
